@@ -91,6 +91,12 @@ def analyse(sh, items, tier):
         if i not in back_map:
             sh.counters['undecided(gas cannot read the rendering)'] += 1
             sh.extra.setdefault('undecided_mnemonics', set()).add(x86ref.ref_mnemonic(rt))
+            # the operands cannot be compared through the reference assembler, but the mnemonic still can: the first token of
+            # the rendering that is not a prefix, against the reference mnemonic (modulo the size-suffix / far-call conventions)
+            mm = miasm_mnemonic(text)
+            rm = x86ref.ref_mnemonic(rt)
+            if mm and not same_mnemonic(mm, rm):
+                problems.append(('mnemonic', rec, 'bytes mean "%s" but miasmX renders "%s" (%s is not %s; GNU as cannot read the rendering)' % (rt, text, mm, rm)))
             continue
         gl, gt = back_map[i]
         if gl != len(g):
@@ -129,6 +135,34 @@ def analyse(sh, items, tier):
             if mn == 'VEX':
                 key = 'len/VEX-or-EVEX(miasmX reads lds/les/bound with a register operand)'
         sh.violation(key, 'bytes %s: %s' % (b[:max(l, rl)].hex(), detail), {'bytes': b.hex()})
+
+
+MIASM_PREFIX_TOKENS = ('lock', 'rep', 'repe', 'repne', 'repz', 'repnz')
+
+
+def miasm_mnemonic(text):
+    for tok in text.split():
+        if tok in MIASM_PREFIX_TOKENS or tok.startswith('['):
+            continue
+        return tok
+    return None
+
+
+def same_mnemonic(mm, rm):
+    """miasmX and objdump spell some mnemonics differently without disagreeing on the instruction."""
+    if mm == rm:
+        return True
+    if set((mm, rm)) == set(('sal', 'shl')):
+        return True
+    if re.match(r'^cmp(eq|lt|le|unord|neq|nlt|nle|ord)(ps|pd|ss|sd)$', rm) and mm == 'cmp' + rm[-2:]:
+        return True      # objdump prints the predicate pseudo-op, miasmX the base form with its immediate
+    if mm + 'w' == rm or mm + 'd' == rm or mm + 'l' == rm:            # fldenv / fldenvw, lgdt / lgdtd, sgdt / sgdtw ...
+        return True
+    if mm in ('callf', 'jmpf', 'retf') and mm[:-1] in (rm, rm.rstrip('w')):      # far transfers
+        return True
+    if rm.rstrip('bwdlq') == mm.rstrip('bwdlq') and rm[:3] in ('mov', 'cmp', 'sto', 'lod', 'sca', 'ins', 'out', 'pus', 'pop'):
+        return True
+    return False
 
 
 def shards(tier, seed):
@@ -172,7 +206,10 @@ def run_shard(shard, tier, seed):
 
 def finalize(merged, tier, seed):
     und = sorted(merged.extra.get('undecided_mnemonics', []))
-    return {'coverage': {'undecided_mnemonics': und, 'reference_versions': gnuref.versions()}}
+    cov = {'undecided_mnemonics': und, 'reference_versions': gnuref.versions()}
+    if merged.extra.get('undecided_pairs'):
+        cov['undecided_pairs'] = sorted(merged.extra['undecided_pairs'])
+    return {'coverage': cov}
 
 
 def replay(w):
